@@ -21,7 +21,7 @@ pub fn def() -> PropDef {
         run,
         shrink: Shrink::None,
         render,
-        rule: "{LOCAL, PROXY} x {unspec, stream, dgram} x every address value of UA (four families) x 6 fixed TLV lists; one address per family x every raw type byte 0..=255 (value lengths 0, 1, 300) and every TLV list of length <= 2 over 15 type bytes (12 named types through the enum, raw 0x00 0xEE 0xFF) x value lengths {0,1,2,255,256,257}, length-3 lists over a reduced menu, and lists sized to exactly 65534 / 65535 payload bytes; each built through with_addresses(..).write_tlv(..) and through new(..).write_payload(addresses).write_payload(tlv); output compared with the independent encoder, with the reference v2 verdict, and with what the real parser returns (command, transport, addresses, bytes, TLV sequence when a family is specified); non-trivial = every case; distinct = hash of the case",
+        rule: "{LOCAL, PROXY} x {unspec, stream, dgram} x every address value of UA (four families) x 6 fixed TLV lists; one address per family x every raw type byte 0..=255 (value lengths 0, 1, 300) and every TLV list of length <= 2 over 15 type bytes (12 named types through the enum, raw 0x00 0xEE 0xFF) x value lengths {0,1,2,255,256,257}, length-3 lists over a reduced menu, and lists sized to exactly 65534 / 65535 payload bytes; each built three ways: with_addresses(..).write_tlv(..)*, new(..).write_payload(addresses).write_payload(tlv)*, and with_addresses(..).write_payloads(one batch); output compared with the independent encoder, with the reference v2 verdict, and with what the real parser returns (command, transport, addresses, bytes, TLV sequence when a family is specified); non-trivial = every case; distinct = hash of the case",
         assumptions: &["TLV values are position-dependent byte patterns, plus every string up to length 5/6 over {00,01,02,03,FF,own type code}; not arbitrary bytes", "registered TLV type codes are copied from the specification text (PP2_TYPE_*)"],
     }
 }
@@ -211,9 +211,12 @@ fn check(c: &Case, acc: &mut Acc) {
         b = b.and_then(|b| if t.mode & 1 == 0 { b.write_payload((TYPES[t.kind as usize % 12].0, v.as_slice())) } else { b.write_payload(v2::TypeLengthValue::new(t.kind, v)) });
     }
     let out2 = b.and_then(|b| b.build());
-    acc.eval(2);
-    acc.validated(2);
-    for (how, out) in [("Builder::with_addresses(..).write_tlv(..)*.build()", &out1), ("Builder::new(..).write_payload(addresses).write_payload(tlv)*.build()", &out2)] {
+    // path 3: with_addresses + one write_payloads batch of (type byte, value) pairs
+    let batch: Vec<(u8, &[u8])> = c.tlvs.iter().zip(values.iter()).map(|(t, v)| (t.code(), v.as_slice())).collect();
+    let out3 = Builder::with_addresses(Version::Two | command, protocol, addresses).write_payloads(batch).and_then(|b| b.build());
+    acc.eval(3);
+    acc.validated(3);
+    for (how, out) in [("Builder::with_addresses(..).write_tlv(..)*.build()", &out1), ("Builder::new(..).write_payload(addresses).write_payload(tlv)*.build()", &out2), ("Builder::with_addresses(..).write_payloads(all TLVs as one batch).build()", &out3)] {
         match out {
             Ok(bytes) if *bytes == want => {}
             Ok(bytes) => {
